@@ -2,7 +2,9 @@
 (* Stage B for C14: boundary strings from the case structure of the specification (every length
    guard +- 1 for the fixed layouts; for the list walkers entries whose length octet points at,
    just before and past the end, zero-length entries, maximal length octets; texts of boundary
-   lengths with one foreign character).  One JSON case per state, with the specification's class. *)
+   lengths with one foreign character; WELL-FORMED lists of many entries for the list walkers: every count
+   0..20 and 32, 64, 127 of every entry form, mixed forms, and lists filling the maximum IE length).
+   One JSON case per state, with the specification's class. *)
 EXTENDS Helpers, TLC, Json
 VARIABLE case
 Fill(x, k) == [i \in 1..k |-> x]
@@ -38,6 +40,27 @@ LoopCases(x) ==
   \cup {<<255>> \o Fill(65, k) : k \in {0, 254, 255, 256}}
   \cup {<<1, 65, 255>> \o Fill(65, k) : k \in {253, 254, 255}}
 
+\* well-formed lists with many entries (a result that grows per entry must cope with every count the IE can carry)
+ManyCounts == (0..20) \cup {32, 64, 127}
+MaxIE(x) == IF x = "LadnToModels" THEN 808 ELSE 255      \* contents of an 8-bit-length IE / of the LADN indication (TLV-E, 3-811)
+FormSeq(x) == CASE x = "RequestedNssaiToModels" -> <<1, 2, 4, 5, 8>>     \* the S-NSSAI value lengths
+                [] x = "LadnToModels" -> <<3, 0, 9, 1, 100>>             \* DNN value lengths (0: empty DNN)
+                [] x = "DNN.GetDNN" -> <<3, 1, 9, 2, 62>>                \* label lengths
+Forms(x) == {FormSeq(x)[i] : i \in 1..Len(FormSeq(x))}
+WfEntry(f, p) == <<f>> \o Fill(p, f)
+RECURSIVE Repeat(_, _)
+Repeat(e, n) == IF n = 0 THEN <<>> ELSE e \o Repeat(e, n - 1)
+RECURSIVE MixedFrom(_, _, _)
+MixedFrom(fs, i, n) == IF n = 0 THEN <<>> ELSE WfEntry(fs[((i - 1) % Len(fs)) + 1], 65) \o MixedFrom(fs, i + 1, n - 1)
+ManyCases(x) ==
+  {s \in UNION {{Repeat(WfEntry(f, p), n) : p \in {65, 1}, n \in ManyCounts} : f \in Forms(x)} : Len(s) <= MaxIE(x)}
+  \cup {Repeat(WfEntry(f, 65), MaxIE(x) \div (f + 1)) : f \in Forms(x)}                 \* as many as the IE can carry
+  \cup {Repeat(WfEntry(f, 65), (MaxIE(x) - (g + 1)) \div (f + 1)) \o WfEntry(g, 65) : f, g \in Forms(x)}   \* filling the maximum length
+  \cup {s \in {MixedFrom(FormSeq(x), k, n) : k \in 1..2, n \in ManyCounts} : Len(s) <= MaxIE(x)}
+\* long contents for the helpers that build their text octet by octet
+LongFixed(x) == IF x \in {"SnssaiToModels", "DecodeLocalTimeZone", "DecodeDaylightSavingTime", "DecodeUniversalTimeAndLocalTimeZone"} THEN {}
+                ELSE {<<f>> \o Fill(p, len - 1) : f \in {1, 17, 3, 13, 242}, p \in {0, 33}, len \in {32, 255, 300}}
+
 \* texts: boundary lengths beyond the exhaustive sweep, one foreign character at chosen positions
 TextBase == {48, 57, 97, 70}
 TextLens == {7, 8, 10, 12, 18, 19, 20, 21, 24}
@@ -45,16 +68,29 @@ TextCases ==
   UNION {{Fill(b, len)} \cup {[Fill(b, len) EXCEPT ![i] = c] : c \in {103, 233, 97}, i \in {1, 3, 5, 6, 7, len - 8, len - 7, len} \cap (1..len)}
          : b \in TextBase, len \in TextLens}
 
-GenCases ==
-  UNION {{[h |-> x, text |-> FALSE, in |-> SubSeq(s, 1, Len(s))] : s \in FixedCases(x)} : x \in ByteHelpers \ LoopHelpers} \* SubSeq: force a tuple
-  \cup UNION {{[h |-> x, text |-> FALSE, in |-> s] : s \in LoopCases(x)} : x \in LoopHelpers}
-  \cup {[h |-> x, text |-> TRUE, in |-> SubSeq(s, 1, Len(s))] : x \in TextHelpers, s \in TextCases}
+CasesOf(x) ==
+  IF x \in TextHelpers THEN {[h |-> x, text |-> TRUE, wf |-> FALSE, in |-> SubSeq(s, 1, Len(s))] : s \in TextCases}   \* SubSeq: force a tuple
+  ELSE IF x \in LoopHelpers
+       THEN {[h |-> x, text |-> FALSE, wf |-> FALSE, in |-> s] : s \in LoopCases(x) \ ManyCases(x)}
+            \cup {[h |-> x, text |-> FALSE, wf |-> TRUE, in |-> s] : s \in ManyCases(x)}
+       ELSE {[h |-> x, text |-> FALSE, wf |-> FALSE, in |-> SubSeq(s, 1, Len(s))] : s \in FixedCases(x) \cup LongFixed(x)}
+ClassOfCase(c) == IF c.text THEN TextClass(c.h, c.in) ELSE ByteClass(c.h, c.in)
 
-GenInit == case \in GenCases
-GenNext == FALSE /\ UNCHANGED case
+\* The cases of one helper are printed while the invariant is evaluated on that helper's state; the state graph is
+\* root -> group -> helper so that TLC's workers share the helpers (initial states are generated by one thread only).
+Groups == <<{"RequestedNssaiToModels"}, {"LadnToModels"}, {"DNN.GetDNN"}, TextHelpers, GetterNames,
+            AllHelpers \ (LoopHelpers \cup TextHelpers \cup GetterNames)>>
+GenInit == case = <<"root">>
+GenNext ==
+  \/ case[1] = "root" /\ case' \in {<<"g", i>> : i \in 1..Len(Groups)}
+  \/ case[1] = "g" /\ case' \in {<<"h", x>> : x \in Groups[case[2]]}
 GenSpec == GenInit /\ [][GenNext]_case
-\* each case is printed with the class the specification gives it
-Emit == PrintT(ToJson([h |-> case.h, text |-> case.text, in |-> case.in,
-                       cls |-> IF case.text THEN TextClass(case.h, case.in) ELSE ByteClass(case.h, case.in)]))
-GenTotal == (IF case.text THEN TextClass(case.h, case.in) ELSE ByteClass(case.h, case.in)) \in Classes
+\* each case is printed with the class the specification gives it; then the number of cases of the helper
+Emit ==
+  case[1] = "h" =>
+    /\ \A c \in CasesOf(case[2]) : PrintT(ToJson([h |-> c.h, text |-> c.text, in |-> c.in, cls |-> ClassOfCase(c)]))
+    /\ PrintT(<<"COUNT", case[2], Cardinality(CasesOf(case[2]))>>)
+\* a well-formed list is a value whatever the number of entries (the empty list is the empty result)
+WellFormedIsValue == case[1] = "h" => \A c \in CasesOf(case[2]) : c.wf => ClassOfCase(c) = (IF Len(c.in) = 0 THEN "empty" ELSE "val")
+GenTotal == case[1] = "h" => \A c \in CasesOf(case[2]) : ClassOfCase(c) \in Classes
 =============================================================================
